@@ -236,7 +236,8 @@ def run(chk, prog):
 def check_load_parks_no_current_flow(chk, prog, tr, RB):
     """After load_json_obj the current flow is not also an entry of named_flows (shared by C10 and C02)."""
     # current flow taken from a map entry -> entry removed
-    lj = prog.fn('StoryState::load_json_obj')
+    from rules.c02 import flow_loader
+    lj = flow_loader(prog, tr)      # by role: the function that parks the flows decoded from a save
     if chk.anchor(RB, 'StoryState::load_json_obj', lj):
         g = cfg(lj)
         took = []
@@ -280,16 +281,22 @@ def check_load_parks_no_current_flow(chk, prog, tr, RB):
 
 def check_load_replaces_parked_flows(chk, prog, tr, RB):
     """On the way to the first insert into named_flows, load_json_obj has created the map afresh or cleared it."""
-    lj = prog.fn('StoryState::load_json_obj')
+    from rules.c02 import flow_loader
+    lj = flow_loader(prog, tr)      # by role: the function that parks the flows decoded from a save
     if not chk.anchor(RB, 'StoryState::load_json_obj', lj):
         return
     g = cfg(lj)
     ins = [bb for bb, t in lj.calls() if callee_short(t) == 'HashMap::insert' and len(t['args']) >= 3 and (
         'field:StoryState::named_flows' in tr.prov(lj, t['args'][0]) or _is_flow_map(lj, t))]
+    # `opt.get_or_insert_with(HashMap::new)` (get_or_insert, get_or_insert_default, insert) hands out the map that is
+    # inside the option afterwards - the old one when there was one.  By itself that empties nothing; `clear()` on the
+    # reference it returns empties the parked map whichever of the two it is.
+    trm = Tracer(prog, extra_transparent=('Option::get_or_insert_with', 'Option::get_or_insert',
+                                          'Option::get_or_insert_default', 'Option::insert'))
     fresh = []
     for bb, t in lj.calls():
         if callee_short(t) in ('HashMap::clear', 'HashMap::drain', 'HashMap::retain') and t['args'] \
-                and 'field:StoryState::named_flows' in tr.prov(lj, t['args'][0]):
+                and 'field:StoryState::named_flows' in trm.prov(lj, t['args'][0]):
             fresh.append(bb)
     for bb, si, s_ in lj.stmts():
         if s_['k'] == 'assign':
